@@ -103,7 +103,8 @@ zpos = z3.Function('zpos', ISeq, Int)              # a position of a zero litera
 mpos = z3.Function('mpos', ISeq, Int)              # a position of a literal of maximal absolute value (non-empty list)
 PairSet = z3.ArraySort(Int, Int, Bool)
 card2 = z3.Function('card2', PairSet, Int)           # cardinality of a finite set of pairs
-cvar = z3.Function('cvar', Int, Int, Int, Int)         # combinations group (pairs): the variable of the pair {u, v}, u < v
+cvar = z3.Function('cvar', Int, Int, Int, Int)
+degsum = z3.Function('degsum', Int, Int, Int)             # bipartite graph g: number of edges at the left vertices 1..u (sum of their degrees)         # combinations group (pairs): the variable of the pair {u, v}, u < v
 mrow = z3.Function('mrow', Int, Int, Int, ISeq)        # (group, u, m): the variables p[u,1..m] of a unary mapping, in order
 mcol = z3.Function('mcol', Int, Int, Int, ISeq)        # (group, v, n): the variables p[1..n,v], in order
 IArr = z3.ArraySort(Int, Int)
@@ -198,7 +199,7 @@ def cmp_op(op, lhs, rhs):
                  z3.If(op == S('<'), lhs < rhs, z3.If(op == S('>'), lhs > rhs, z3.BoolVal(False))))))
 
 
-FUNCS = dict(tlen=tlen, tcoef=tcoef, tlit=tlit, tunit=tunit, tnegc=tnegc, tset=tset, wsum=wsum, thaszero=thaszero,
+FUNCS = dict(degsum=degsum, cvar=cvar, tlen=tlen, tcoef=tcoef, tlit=tlit, tunit=tunit, tnegc=tnegc, tset=tset, wsum=wsum, thaszero=thaszero,
              tmaxabs=tmaxabs, tnonneg=tnonneg, tmpos=tmpos, tzpos=tzpos, mkcon=mkcon, olen=olen, osnoc=osnoc, otake=otake, holds=holds,
              osat=osat, oappc=oappc, omaxabs=omaxabs, ohaszero=ohaszero, onormal=onormal,
              ilen=ilen, iget=iget, inil=inil, isnoc=isnoc, iapp=iapp, ineg=ineg, haszero=haszero,
@@ -475,6 +476,15 @@ def _on_terms(terms_by_decl):
         # Seq.lean implchain_*: n-1 two-literal clauses over the literals of X
         out += [z3.Implies(ilen(X) >= 1, clen(implchain(X)) == ilen(X) - 1), cmaxabs(implchain(X)) <= maxabs(X),
                 z3.Implies(z3.Not(haszero(X)), z3.Not(chaszero(implchain(X))))]
+    for (g, u) in terms_by_decl.get('degsum', []):
+        # CnfSem.lean degsum_zero / degsum_pred / degsum_succ / degsum_nonneg / ilen_rnbrs_nonneg (definition by recursion on u)
+        out += [z3.Implies(u == 0, degsum(g, u) == 0),
+                z3.Implies(u >= 1, degsum(g, u) == degsum(g, u - 1) + ilen(rnbrs(g, u))),
+                z3.Implies(u >= 0, degsum(g, u + 1) == degsum(g, u) + ilen(rnbrs(g, u + 1))),
+                z3.Implies(u >= 0, degsum(g, u) >= 0), ilen(rnbrs(g, u)) >= 0]
+        # CnfSem.lean degsum_mono: more vertices, more edges
+        out += [z3.Implies(z3.And(0 <= u2, u2 <= u), degsum(g2, u2) <= degsum(g, u)) for (g2, u2) in terms_by_decl.get('degsum', [])
+                if g2.eq(g) and not u2.eq(u)]
     for (sq, o) in terms_by_decl.get('ishift', []):
         # Seq.lean ishift_*: length, no zero / bounded when the elements are positive and the offset non-negative, identity
         t = ishift(sq, o)
@@ -923,7 +933,7 @@ def _collect(exprs):
             if sn in by_sort and not _has_bound(e):
                 by_sort[sn].append(e)
             d = e.decl().name()
-            if e.num_args() and d in FUNCS and not _has_bound(e):
+            if e.num_args() and (d in FUNCS or d == 'select') and not _has_bound(e):
                 by_decl.setdefault(d, []).append(tuple(e.children()))
             stack.extend(e.children())
     return by_sort, by_decl
@@ -980,15 +990,17 @@ def _quantifier_instances(exprs, by_decl):
     return out
 
 
-def instances(exprs, rounds=3):
-    """ground lemma instances for the VC made of `exprs` (hypotheses + goal)"""
+def instances(exprs, rounds=3, goal=None):
+    """ground lemma instances for the VC made of the hypotheses `exprs` and the `goal`: lemma schemas are instantiated at the
+    ground terms of both, the hypotheses' own quantified facts are instantiated too - the goal's NEVER (that would assume it)"""
     out = []
     seen = set()
-    cur = list(exprs)
+    hyps = list(exprs)
+    cur = hyps + ([goal] if goal is not None else [])
     for _ in range(rounds):
         by_sort, by_decl = _collect(cur + out)
         new = []
-        new += _quantifier_instances(cur, by_decl)
+        new += _quantifier_instances(hyps, by_decl)
         new += _on_terms(by_decl)
         new += _sem_on_terms(by_sort['Asg'], by_decl)
         new += _opb_sem(by_sort['Asg'], by_decl, by_sort)
